@@ -320,6 +320,7 @@ SEND_PATH = re.compile(r"World::send_message$|WriteHalf::send$|Topology::enqueue
 DISCARD_OK = {
     "<turmoil::net::tcp::stream::ReadHalf as std::ops::Drop>::drop": "a destructor cannot report; the RST is best effort and the stream is torn down locally right after",
     "<turmoil::net::tcp::stream::WriteHalf as std::ops::Drop>::drop": "a destructor cannot report; a FIN that cannot be sent means the link is gone (the peer is refused / reset by the topology)",
+    "<turmoil::net::tcp::stream::ConnectGuard as std::ops::Drop>::drop": "a destructor cannot report; the RST for an abandoned, already answered connect is best effort (an unreachable peer is reset by the topology)",
     "turmoil::net::tcp::stream::send_loopback": "the RST bounced back to the local sender of a loopback segment has no further feedback path",
     "turmoil::top::Link::deliver_messages": "an RST reply that cannot be queued (link partitioned) is dropped like any other message on that link",
 }
@@ -328,7 +329,7 @@ DISCARD_OK = {
 def r11(ctx):
     R = "C02-R11"
     ctx.rule(R, "error discipline on the send / receive path of turmoil::net: the result of send_message / send / enqueue / receive_from_network / "
-                "buffer / try_acquire / seq is examined or propagated; only the four enumerated best-effort sites may discard it (a writer is "
+                "buffer / try_acquire / seq is examined or propagated; only the enumerated best-effort sites may discard it (a writer is "
                 "blocked or told an error, never silently discarded)")
     dropped_results_rule(ctx, R, SEND_PATH, DISCARD_OK, ("turmoil",))
     ctx.floor(R, 15)
